@@ -287,7 +287,7 @@ def gen_raman_low_case(rng):
     p = gen_raman_fiber(rng)
     L = p['length']
     method = rng.choice(['perturbative', 'numerical', 'numerical'])
-    step = rng.choice([L * 1e3 / k for k in (7, 13, 40)] + [5000.0, 2000.0, 500.0, 50.0])
+    step = rng.choice([L * 1e3 / k for k in (7, 13, 40) if L * 1e3 / k <= 5000.0] + [5000.0, 2000.0, 500.0, 50.0])
     if rng.random() < 0.4 and p['lumped_losses']:
         k = rng.randint(1, max(1, int(L * 1e3 / step) - 1))          # put one lumped loss exactly on a solver grid point
         p['lumped_losses'][0]['position'] = k * step * 1e-3 if 0 < k * step * 1e-3 < L else p['lumped_losses'][0]['position']
@@ -811,11 +811,16 @@ def drive_raman_low(ctx, case, sim):
     bound_db = LOG10E10 * float(np.sum((a_np * np.diff(zz)) ** 2)) if case['method'] == 'numerical' else 0.0
     dev = max(abs(x - bud) for x in loss)
     ctx.count('raman_low_' + case['method'])
-    if dev > bound_db + 1e-7:
+    applicable = case['method'] != 'numerical' or float(np.max(a_np * np.diff(zz))) <= 0.5   # |ln(1-x)+x| <= x^2 needs x <= 1/2
+    if not applicable:
+        ctx.count('raman_low_bound_not_applicable')
+    if applicable and dev > bound_db + 1e-7:
         dup = positions_dup(lumped)
+        bud1 = bud - sum(l['loss'] for l in lumped) + first_occurrence_sum(lumped)
+        expl = dup and max(abs(x - bud1) for x in loss) <= bound_db + 1e-7
         ctx.violation('raman_low_power', f"Raman on ({case['method']}, order {case['order']}, step {case['step']} m), "
                       f"{case['p']:.1e} W/channel: loss {loss} dB vs budget {bud:.9f} dB, deviation {dev:.3e} > "
-                      f"Euler bound {bound_db:.3e} + 1e-7", cs, duplicate_positions=dup, dup_explained=False)
+                      f"Euler bound {bound_db:.3e} + 1e-7", cs, duplicate_positions=dup, dup_explained=bool(expl))
     if case['method'] != 'numerical' or len(zz) > 60:      # exact rationals grow by ~100 bits per grid step
         return None, None
     # exact zero-power closed form on the same grid (the solver grid is recomputed here with the same numpy expression)
@@ -896,7 +901,7 @@ def drive_raman_pump(ctx, case, sim):
 def is_f10(v):
     """open known finding F10: two lumped losses at one position, the observed total is exactly the total of the
     first loss of every distinct position — nothing else about the budget is excused"""
-    return v.get('key') in ('budget', 'lumped_once') and v.get('duplicate_positions') is True and v.get('dup_explained') is True
+    return v.get('key') in ('budget', 'lumped_once', 'raman_low_power') and v.get('duplicate_positions') is True and v.get('dup_explained') is True
 
 
 def run(ctx):
@@ -920,7 +925,7 @@ def run(ctx):
         cases = [json.load(open(ctx.replay))['case']]
     else:
         eq0, _ = base_eq()
-        cases += [gen_fiber_case(rng) for _ in range(ctx.scale(260, 5000))]
+        cases += [gen_fiber_case(rng) for _ in range(ctx.scale(260, 4000))]
         cases += [gen_path_case(rng, eq0) for _ in range(ctx.scale(40, 500))]
         cases += [gen_path_case(rng, eq0, max_units=rng.choice([3, 4, 4])) for _ in range(ctx.scale(8, 80))]
         cases += [gen_merge_case(rng) for _ in range(ctx.scale(120, 2000))]
@@ -1002,6 +1007,11 @@ def run(ctx):
     tkind[kind if 'kind' in dir() else 'start'] = tkind.get(kind if 'kind' in dir() else 'start', 0.0) + time.time() - tlast
     ctx.extra['python_seconds_by_kind'] = {k: round(v, 2) for k, v in tkind.items()}
     t_coq = time.time()
+    import random
+    order = list(range(len(terms)))
+    random.Random(0).shuffle(order)                 # spread the expensive (path) terms over the shards
+    terms = [terms[i] for i in order]
+    post = [post[i] for i in order]
     lines = common.coq_eval('C05', 'Prelude Model.Fiber Run.C05', terms, per_file=ctx.scale(10, 40), prelude='Open Scope Q_scope.')
     ctx.extra['coq_eval_seconds'] = round(time.time() - t_coq, 2)
     for (how, c, impl), model in zip(post, lines):
